@@ -134,6 +134,15 @@ func discharge(o *Obligation, timeoutMs int, dir string, idx int, allSolvers boo
 			o.Result = "unknown"
 		}
 	}
+	allErr := true
+	for _, r := range tried {
+		if r.status != "error" {
+			allErr = false
+		}
+	}
+	if allErr {
+		o.Result = "solver-error" // malformed query: a generator bug, never a verdict about the code
+	}
 	o.Output = strings.Join(outs, "\n")
 }
 
